@@ -26,6 +26,9 @@ def main():
                         caught.append(f"{tag}: `{sig}`")
                 elif tier == "quick":
                     missed.append(p)
+        if meta.get("status"):
+            caught = [meta["status"]]
+            missed = []
         rows.append((name, meta.get("title", ""), meta.get("trigger", ""), conf, caught, nofail, missed))
     L = ["# Seeded changes", "",
          "Each directory holds one change to `/repo` produced by a fresh sub-agent that saw only the text of one property and a scratch worktree",
